@@ -173,7 +173,9 @@ CHECKS = {
         text="Theorems for every tick resolution q, every stream of durations >= 1 tick (on/off grid), every run length, from any "
              "playing state: event k is performed on exactly the first tick at or after its exact ideal time (closed form, = "
              "start + ceil(S_k/q) from a start); error in [0,q) independent of k (no drift); tick depends on the ideal time alone "
-             "(rounding never accumulates); nudge shifts every later ideal time by exactly x. Correspondence incl. long runs.",
+             "(rounding never accumulates); nudge shifts every later ideal time by exactly x; the same closed form for the M events of a "
+             "track bounded by count=M, whose end is found on the first tick at or after the ideal end of the last event. "
+             "Correspondence incl. long runs and durations delivered as numpy float32/float64, Fractions, ints.",
         design="DESIGN.md §3 C01",
         note=SCHED_NOTE + " The closed form is proved for the clock part of Track.tick (pull loop + time increment); solo_clock "
              "and C07.non_interference tie it to the track as it evolves inside a timeline tick, and onset_in_a_multitrack_run "
@@ -199,7 +201,10 @@ CHECKS = {
              "changes nothing; no API call takes the track count past a non-zero limit; named replace does not grow the list; "
              "removed/muted tracks emit nothing; run(stop_when_done=False) switches the setting off whatever it was and then no tick of "
              "the run stops, however many follow (run_keyword_off_never_stops; the harness drives the real run() keyword and the "
-             "attribute alternately against the model's op, and re-used timelines over several run() sessions).",
+             "attribute alternately against the model's op, and re-used timelines over several run() sessions); a track bounded by "
+             "count=M plays its M events on the ticks of the closed form and finds its end exactly on the first tick at or after the ideal "
+             "end of its last event, for all durations >= 1 tick and all M (count_bounded_track_ends_on_time / _onsets: the onset "
+             "invariant generalised to an event count).",
         design="DESIGN.md §3 C06",
         note=SCHED_NOTE + " len<=max_tracks is proved per API call and as an invariant over whole histories (any calls, ticks, callbacks, faults) that do not change the limit itself. "
              "'Performs exactly min(count, length) events' is proved for the whole life of a track inside a timeline of any number of tracks "
@@ -230,7 +235,10 @@ CHECKS = {
              "tracks), the timeline's time advances exactly one tick per tick; the failing track is removed, its notes released, and "
              "the remaining tracks of the snapshot are still ticked; in intolerant mode the exception propagates; callback "
              "exceptions are swallowed in both modes; a callback StopIteration ends the track; the name of a removed track is free "
-             "again: scheduling under it creates a new track built from the call alone (schedule_under_free_name_adds / _independent).",
+             "again: scheduling under it creates a new track built from the call alone (schedule_under_free_name_adds / _independent), and over "
+             "whole runs: a tick never renames a track (alone_name), so after any number of ticks a name carried only by tracks that "
+             "failed / finished is carried by nobody and the re-scheduled track is appended to the survivors (name_free_after_removal, "
+             "reschedule_after_removal).",
         design="DESIGN.md §3 C17",
         note=SCHED_NOTE + " 'Every other track's output is identical to a run without the failing track' is the theorem "
              "fault_isolated (one tick) and fault_isolated_run (any number of ticks: same states of all other tracks, the failing "
